@@ -29,7 +29,7 @@ STUBS = [
 ]
 ASSUMPTIONS = ["the event loop calls get_buffer()/buffer_updated() back-to-back (as selector_events does) and never while reading is paused"]
 BOUNDS = {"quick": "stream of 6 distinct bytes, K <= 4 events before the drain, <= 2 cancellations, receive sizes 1..3", "thorough": "K <= 6, stream 8"}
-OUTSIDE = "uvloop/trio backends, the real selector transport, TLS on top (C08/C09)"
+OUTSIDE = "uvloop/trio backends, the real selector transport; for TLS only the schedule around cancelled receives is explored (OpenSSL runs concretely; byte-transparency of TLS is C08, not claimed)"
 
 
 def _make_proto(maxsize):
@@ -231,6 +231,113 @@ def endpoint(frames: int, K: int, path: str, bufsize: int = 16, via: str = "canc
     return scenario
 
 
+def tls(K: int, kind: str = "recv", prefix: list = ()):
+    """Two REAL AsyncTLSStreamTransport objects (real ssl.SSLObject / MemoryBIO, certificate from benchmark_server/servers/certs)
+    wrapped around an in-memory duplex pipe.  The server writes a 6-byte stream in solver-chosen pieces while the client's pending
+    TLS receives are cancelled at solver-chosen moments; later receives must deliver exactly the rest of the stream.
+    Only the schedule is symbolic here (OpenSSL is executed concretely); the assertion is about the Python glue of the TLS
+    transport around a cancelled want-read."""
+    import ssl
+
+    from easynetwork.lowlevel.api_async.transports.tls import AsyncTLSStreamTransport
+
+    from .asyncenv import PipeTransport
+
+    CERT = "/repo/benchmark_server/servers/certs/ssl_cert.pem"
+    KEY = "/repo/benchmark_server/servers/certs/ssl_key.pem"
+
+    def scenario(S):
+        stream = b"ABCDEF"
+        with loop_context() as loop:
+            be = backend()
+            a, b = PipeTransport.pair(be, loop)
+            sctx = ssl.create_default_context(ssl.Purpose.CLIENT_AUTH)
+            sctx.load_cert_chain(CERT, KEY)
+            cctx = ssl.create_default_context()
+            cctx.check_hostname = False
+            cctx.verify_mode = ssl.CERT_NONE
+            ts = loop.create_task(AsyncTLSStreamTransport.wrap(a, sctx, server_side=True, handshake_timeout=1000))
+            tc = loop.create_task(AsyncTLSStreamTransport.wrap(b, cctx, server_side=False, server_hostname="x", handshake_timeout=1000))
+            for _ in range(200):
+                loop.step()
+                if ts.done() and tc.done():
+                    break
+            server, client = ts.result(), tc.result()
+            st = {"sent": 0, "got": [], "task": None, "errors": [], "cancels": 0, "cancel_pending": 0, "wtask": None}
+
+            async def recv_once():
+                if kind == "recv_into":
+                    buf = S.real_bytearray(4)  # OpenSSL (C code) writes into it
+                    n = await client.recv_into(buf)
+                    st["got"].append(bytes(buf[:n]))
+                else:
+                    st["got"].append(await client.recv(4))
+
+            def harvest():
+                t = st["task"]
+                if t is not None and t.done():
+                    st["task"] = None
+                    if not t.cancelled() and t.exception() is not None:
+                        st["errors"].append(repr(t.exception()))
+
+            def write(k):
+                if st["sent"] < len(stream) and (st["wtask"] is None or st["wtask"].done()):
+                    piece = stream[st["sent"] : st["sent"] + k]
+                    st["sent"] += len(piece)
+                    st["wtask"] = loop.create_task(server.send_all(piece))
+
+            def total():
+                return sum(len(g) for g in st["got"])
+
+            for i in range(K):
+                harvest()
+                if st["task"] is None:
+                    st["task"] = loop.create_task(recv_once())
+                c = prefix[i] if i < len(prefix) else S.choice(3, f"ev{i}")
+                if c == 0:
+                    loop.step()
+                elif c == 1:
+                    write(S.pick([1, 2, 3], f"k{i}"))
+                else:
+                    if st["cancels"] < 2 and not st["task"].done():
+                        st["cancels"] += 1
+                        st["cancel_pending"] += 1
+                        st["task"].cancel()
+                    else:
+                        loop.step()
+            for _ in range(200):
+                harvest()
+                if st["errors"]:
+                    break
+                if st["task"] is None:
+                    if total() >= len(stream):
+                        break
+                    st["task"] = loop.create_task(recv_once())
+                write(3)
+                loop.step()
+            harvest()
+            if st["task"] is not None:
+                st["task"].cancel()
+            data = b"".join(st["got"])
+            ok = data == stream and not st["errors"]
+            tags = ("cancel-on-pending-receive",) if st["cancel_pending"] else ()
+            for t in (server, client):
+                loop.create_task(aclose_quiet(t))
+            loop.run_until_idle(100)
+            return Outcome(ok=ok, skeleton=(len(data), len(st["errors"])), tags=tags, detail={"received": data, "stream": stream, "errors": st["errors"]})
+
+    return scenario
+
+
+async def aclose_quiet(t):
+    from easynetwork.lowlevel.api_async.transports.utils import aclose_forcefully
+
+    try:
+        await aclose_forcefully(t)
+    except Exception:  # noqa: BLE001
+        pass
+
+
 def shards(tier: str):
     import itertools
 
@@ -252,6 +359,10 @@ def shards(tier: str):
     for kind, via, maxsize in deep:
         for pre in itertools.product(range(3), repeat=2 if quick else 3):
             add(f"proto/{kind}/K{K}/{via}/m{maxsize}/pre{''.join(map(str, pre))}", dict(N=N, K=K, kind=kind, maxsize=maxsize, via=via, prefix=list(pre)), cost=9 ** (K - len(pre)) * 3)
+    # the TLS transport's Python glue around a cancelled want-read, with real ssl objects on both sides of an in-memory pipe
+    for kind in ("recv", "recv_into"):
+        for pre in range(3):
+            out.append({"name": f"tls/{kind}/K{4 if quick else 6}/pre{pre}", "scenario": "props.c10:tls", "params": dict(K=4 if quick else 6, kind=kind, prefix=[pre]), "budget": B, "cost": 400, "per_path_timeout": 60})
     # "... or a request handler's yielded timeout": the stream server's request receivers (scenario shared with C15)
     for path in ("copy", "buf"):
         for pre in range(3):
